@@ -1,6 +1,6 @@
 From Coq Require Import ZArith List String.
 From DRX Require Import Py.PyBytes Py.Val.
-From DRX Require Model.ScoreIO Model.RiffIO Model.IndexIO Model.XtractIO Model.SndIO Model.VwscIO Model.ClutIO Model.TextIO Model.CastIO Model.BitdIO Model.DirIO.
+From DRX Require Model.ScoreIO Model.RiffIO Model.IndexIO Model.XtractIO Model.SndIO Model.VwscIO Model.ClutIO Model.TextIO Model.CastIO Model.BitdIO Model.DirIO Model.ConstIO.
 Import ListNotations.
 Open Scope string_scope.
 
@@ -31,7 +31,10 @@ Definition table : list (string * (val -> val)) := [
   ("parse_cast", Model.CastIO.run_parse_cast);
   ("bitd2bmp", Model.BitdIO.run_bitd2bmp);
   ("bitd_history", Model.BitdIO.run_bitd_history);
-  ("parse_dir", Model.DirIO.run_parse_dir)
+  ("parse_dir", Model.DirIO.run_parse_dir);
+  ("const_string", Model.ConstIO.run_const_string);
+  ("const_int", Model.ConstIO.run_const_int);
+  ("float80", Model.ConstIO.run_float80)
 ].
 
 Fixpoint lookup (n : string) (t : list (string * (val -> val))) : option (val -> val) :=
